@@ -28,6 +28,17 @@ type MemCore struct {
 	enc zapcore.Encoder
 	r   *ring.Ring
 	mu  *sync.RWMutex
+	// cur is the write position shared by a core and all cores derived from it
+	// (nil until the first core is derived: then r is the position)
+	cur **ring.Ring
+}
+
+// head returns the current write position; mu must be held
+func (mc *MemCore) head() *ring.Ring {
+	if mc.cur != nil {
+		return *mc.cur
+	}
+	return mc.r
 }
 
 /*MemLogger - a struct for ring buffered inmemory logger */
@@ -57,8 +68,10 @@ func (ml *MemLogger) GetCore() zapcore.Core {
 func (ml *MemLogger) GetLogs() []*observer.LoggedEntry {
 	var index = BufferSize - 1
 	mc := ml.core
+	mc.mu.RLock()
+	defer mc.mu.RUnlock()
 	logs := make([]*observer.LoggedEntry, BufferSize)
-	mc.r.Do(func(val interface{}) {
+	mc.head().Do(func(val interface{}) {
 		if val != nil {
 			logs[index] = val.(*observer.LoggedEntry)
 			index--
@@ -126,7 +139,7 @@ func (mc *MemCore) Write(ent zapcore.Entry, fields []zapcore.Field) error {
 	defer mc.mu.Unlock()
 
 	var entry *observer.LoggedEntry
-	r := mc.r
+	r := mc.head()
 	v := r.Value
 	if v == nil {
 		entry = &observer.LoggedEntry{}
@@ -136,7 +149,11 @@ func (mc *MemCore) Write(ent zapcore.Entry, fields []zapcore.Field) error {
 	}
 	entry.Entry = ent
 	entry.Context = fields
-	mc.r = mc.r.Next()
+	if mc.cur != nil {
+		*mc.cur = r.Next()
+	} else {
+		mc.r = r.Next()
+	}
 	return nil
 }
 
@@ -146,12 +163,19 @@ func (mc *MemCore) Sync() error {
 }
 
 func (mc *MemCore) clone() *MemCore {
-	mc.mu.RLock()
-	defer mc.mu.RUnlock()
+	mc.mu.Lock()
+	defer mc.mu.Unlock()
+	// the derived core writes into the same ring: it has to share the write
+	// position and the lock with the core it is derived from
+	if mc.cur == nil {
+		cur := mc.r
+		mc.cur = &cur
+	}
 	return &MemCore{
 		LevelEnabler: mc.LevelEnabler,
 		enc:          mc.enc.Clone(),
 		r:            mc.r,
-		mu:           &sync.RWMutex{},
+		mu:           mc.mu,
+		cur:          mc.cur,
 	}
 }
